@@ -97,6 +97,7 @@ def check(ctx):
     ctx.rule("R4", "the completion-context analyser's line-start table agrees with the lexer's notion of a line (\\n only)", floor=1)
     ctx.rule("R6", "the names the path completer offers are the names the file system reports: the glob walker's listing helper returns os.listdir entries themselves (filtered or sorted at most, never rewritten)", floor=1)
     ctx.rule("R7", "the completion context a request works with is analysed from that request's whole text and cursor position: Completer.parse computes it by calling the analyser in this call on every path and keeps nothing from earlier requests (suffix and closing quote depend on the text *after* the cursor)", floor=2)
+    ctx.rule("R9", "the completion context is cut at the cursor: where the analyser folds backslash-newline continuations inside a segment, the cursor is shifted by what was folded *before the cursor* only - every measurement on the segment that enters the shift is bounded by the cursor position (a shift by all continuations of the segment puts the cursor in the wrong word: prefix and suffix no longer reproduce the text around it)", floor=1)
     ctx.rule("R8", "the scanner that finds the string the cursor is in (tools.check_for_partial_string) judges 'this quote is inside a comment' only from text *after the last string it scanned*: the search for `#` never looks back into an earlier, already closed string on the same line (`@('a#b', 'my fi<Tab>` must still see the second quote open)", floor=1)
     ctx.rule("R3", "both emitters escape the closing delimiter in force, on every path, after backslash doubling and before the assembly start+name+end", floor=10)
 
@@ -414,6 +415,7 @@ def check(ctx):
     _listing_verbatim(ctx)
     _fresh_context(ctx)
     _partial_string_comment_window(ctx)
+    _cursor_shift_bounded(ctx)
 
 
 def _fresh_context(ctx):
@@ -550,6 +552,47 @@ def _partial_string_comment_window(ctx):
                 hay = defs[hay.id][0].value
             ok = isinstance(hay, ast.Subscript) and isinstance(hay.slice, ast.Slice) and depends_on_pos(hay.slice.lower)
         ctx.ob("R8", st, f"`{short(h, 50)}`: the window searched for `#` starts at or after the scan position ({sorted(P)})", ok, key="partial-string|comment-window-reaches-back", where=loc(h), detail=None if ok else "the window starts at the line start of the whole text: a `#` inside an earlier closed string on that line hides the quote")
+
+
+def _cursor_shift_bounded(ctx):
+    CCX = "xonsh/parsers/completion_context.py"
+    cm = ctx.repo.module(CCX)
+    fn = cm.func("CompletionContextParser.process_string_segment")
+    st = f"{CCX}:CompletionContextParser.process_string_segment"
+    sp = param_name(fn, 0)
+    defs = df.all_defs(fn)
+    rets = [r for r in walk_local(fn) if isinstance(r, ast.Return) and isinstance(r.value, ast.Tuple) and len(r.value.elts) == 2 and isinstance(r.value.elts[1], ast.Name)]
+    if not rets:
+        raise AnalysisError(f"{st}: the (text, relative cursor) result was not found")
+    RC = {r.value.elts[1].id for r in rets}
+    STR = {sp} | {nm for nm, ds in defs.items() if any(d.value is not None and sp in df.names_read(d.value) and isinstance(d.value, ast.Call) and isinstance(d.value.func, ast.Attribute) and d.value.func.attr in ("replace", "strip", "lstrip", "rstrip") for d in ds)}
+    shifts = [a for a in walk_local(fn) if (isinstance(a, ast.AugAssign) and isinstance(a.target, ast.Name) and a.target.id in RC) or (isinstance(a, ast.Assign) and any(isinstance(t, ast.Name) and t.id in RC for t in a.targets) and any(isinstance(x, ast.Name) and x.id in RC for x in ast.walk(a.value)))]
+    if not shifts:
+        ctx.ob("R9", st, "the relative cursor is not shifted (nothing is folded)", True, key="segment|no-shift")
+        return
+    for a in shifts:
+        e = a.value
+        # every measurement on the segment text inside the shift
+        unbounded = []
+        exprs = [e]
+        for x in ast.walk(e):
+            if isinstance(x, ast.Name) and x.id not in RC and x.id not in STR:
+                for d in defs.get(x.id, []):
+                    if d.value is not None:
+                        exprs.append(d.value)
+        for ex in exprs:
+            for c in ast.walk(ex):
+                if isinstance(c, ast.Call) and isinstance(c.func, ast.Attribute) and isinstance(c.func.value, ast.Name) and c.func.value.id in STR and c.func.attr in ("count", "find", "rfind", "index"):
+                    hi = c.args[2] if len(c.args) >= 3 else None
+                    if hi is None or not (RC & df.names_read(hi)):
+                        unbounded.append(c)
+                if isinstance(c, ast.Call) and call_name(c) == "len" and c.args:
+                    a0 = c.args[0]
+                    if isinstance(a0, ast.Name) and a0.id in STR:
+                        unbounded.append(c)
+                    elif isinstance(a0, ast.Subscript) and isinstance(a0.value, ast.Name) and a0.value.id in STR and not (isinstance(a0.slice, ast.Slice) and a0.slice.upper is not None and RC & df.names_read(a0.slice.upper)):
+                        unbounded.append(c)
+        ctx.ob("R9", st, f"`{short(a, 60)}`: the shift measures the segment only up to the cursor", not unbounded, key="segment|shift-measures-whole-segment", where=loc(unbounded[0]) if unbounded else loc(a), detail=f"`{short(unbounded[0], 50)}` looks at the whole segment" if unbounded else None)
 
 META = {
     "technique": "static analysis: lexer spelling tables and handlers -> token types, grammar exclusion set, regex syntax-tree character class; set inclusion; CFG dominance / reaching-definition (stale copy) check of the two quote emitters",
